@@ -240,7 +240,8 @@ def run(prog: Program, rep: Report, tier: str) -> None:
     # ---- R17.5 context manager
     I3, eouts, efi = B.run_bridge_method(prog, "__aenter__", fresh_instance=True)
     ewhere = f"{loc(efi, efi.node)} {efi.qualname}"
-    sig = lambda os_: sorted((o.kind, o.exc_name, tuple((e.kind, e.target) for e in o.state.events if not e.target.startswith("logger."))) for o in os_)  # noqa: E731
+    # (the SET of traces: how many abstract paths share one trace depends on where the interpreter happens to split cases)
+    sig = lambda os_: sorted({(o.kind, o.exc_name, tuple((e.kind, e.target) for e in o.state.events if not e.target.startswith("logger."))) for o in os_})  # noqa: E731
     ok5 = sig(eouts) == sig(outs) and all(o.value[0] == "obj" and o.state.heap[o.value[1]].name == "self" for o in eouts if o.kind == "return")
     rep.check(ok5, "R17.5", "__aenter__", ewhere, "__aenter__ does not (only) await start() and return self", key="R17.5|aenter")
     I4, xouts, xfi = B.run_bridge_method(prog, "__aexit__")
